@@ -1169,9 +1169,24 @@ func (c *Ctx) setterTotality(r *Report, prefix string) {
 			r.undecided(ruleW, "["+rt.Label+"] stores", c.Pos(rt.Fn.Pos()), "no store of the length / bit-length fields is reachable in this instance")
 		}
 	}
+	// the API entry (SetAttr) is the root: a size limit in the wrapper refuses a value as surely as one in setAttr
+	api := c.Method("eap", "EapAkaPrime", "SetAttr")
+	apiRoots := roots
+	if api != nil {
+		apiRoots = nil
+		for _, rt := range roots {
+			if rt.Fn == nil {
+				apiRoots = append(apiRoots, rt)
+				continue
+			}
+			sp := *rt.Spec
+			sp.NonNil = map[string]bool{"eapAkaPrime": true, "attr": true}
+			apiRoots = append(apiRoots, domRoot{Fn: api, Label: rt.Label, Spec: &sp})
+		}
+	}
 	c.domainTotalRoots(r, prefix+"aka.setter-accepts-domain",
-		"the attribute setter accepts every value size of the domain: for AT_RAND/AT_AUTN/AT_MAC with 16 octets, AT_KDF with 2, AT_RES with 4..16, AT_KDF_INPUT with 0..300 and AT_CHECKCODE with 0, 20 or 32 octets no error exit of setAttr is reachable (the case dispatch and every size test are refuted by linear arithmetic over the attribute type and len(value))",
-		9, map[*ssa.Function]*domSpec{}, roots)
+		"the attribute setter accepts every value size of the domain: for AT_RAND/AT_AUTN/AT_MAC with 16 octets, AT_KDF with 2, AT_RES with 4..16, AT_KDF_INPUT with 0..300 and AT_CHECKCODE with 0, 20 or 32 octets no error exit of SetAttr (through setAttr) is reachable (the case dispatch and every size test are refuted by linear arithmetic over the attribute type and len(value))",
+		9, map[*ssa.Function]*domSpec{}, apiRoots)
 }
 
 // loopPhiNonNil: ph is a φ at a loop header whose entry value is nil and whose loop-carried values are
